@@ -109,6 +109,12 @@ class Ctx:
     def violations(self, vs):
         self.viol.extend(vs)
 
+    def unknown_viol(self):
+        """Violations that are not recorded known findings: only these stop an
+        exploration early (a known finding must never shorten what is explored)."""
+        known = load_known().get(self.pid, {})
+        return [v for v in self.viol if v.get('sig') not in known]
+
     def cap(self, text):
         self.caps.append(text)
 
